@@ -366,13 +366,19 @@ macro_rules! fonts {
 fn glyphs_from_u8_data(font_height: usize, mut data: &[u8]) -> HashMap<char, Glyph> {
     let mut glyphs = HashMap::new();
     let mut ch = 0;
-    while !data.is_empty() {
+    if font_height == 0 {
+        return glyphs;
+    }
+    while data.len() >= font_height {
         #[cfg(icy_engine_verif)]
         crate::verif_hooks::tick(1);
         let glyph = Glyph {
             data: data[..font_height].into(),
         };
-        glyphs.insert(unsafe { char::from_u32_unchecked(ch as u32) }, glyph);
+        let Some(glyph_char) = char::from_u32(ch as u32) else {
+            break;
+        };
+        glyphs.insert(glyph_char, glyph);
 
         data = &data[font_height..];
         ch += 1;
